@@ -5,11 +5,12 @@ import Optyx.Drive.Scipy
 import Optyx.Drive.Analysis
 import Optyx.Drive.Jac
 import Optyx.Drive.State
+import Optyx.Drive.Api
 
 namespace Optyx.Drive
 
 def handlers : List (String → List Sexp → Option String) :=
-  [handleCore, LPNs.handleLP, LPNs.handleScipy, AnalysisNs.handleAnalysis, JacNs.handleJac, handleState]
+  [handleCore, LPNs.handleLP, LPNs.handleScipy, AnalysisNs.handleAnalysis, JacNs.handleJac, handleState, handleApi]
 
 def dispatch (line : String) : String :=
   match Sexp.parseLine line with
